@@ -7,6 +7,7 @@ import (
 	"os"
 	"path/filepath"
 	"runtime"
+	"strconv"
 	"strings"
 	"sync"
 	"sync/atomic"
@@ -174,6 +175,9 @@ func discover(l *Layer) LayerPlan {
 	seenSearch := map[Hash]bool{r0.SearchKey: true}
 	nops := len(l.Ops)
 	workers := runtime.GOMAXPROCS(0)
+	if v, err := strconv.Atoi(os.Getenv("VERIF_WORKERS")); err == nil && v > 0 && v < workers {
+		workers = v
+	}
 	for lo := 0; lo < len(lp.States) && !lp.Capped; {
 		hi := len(lp.States)
 		if l.Depth > 0 && int(lp.States[lo].Depth) >= l.Depth {
